@@ -3,9 +3,9 @@ namespace Chartparse.Rx
 open Chartparse
 
 /-- C10: whatever a field recogniser accepts starts (after blanks) with `<Name> = ` -/
-theorem field_prefix (name : Str) (s : Str) (caps : Caps) (h : (fieldStrRe name).matchGroups s = some caps) :
+theorem field_prefix (vs : CSet) (name : Str) (s : Str) (caps : Caps) (h : (fieldRe vs name).matchGroups s = some caps) :
     ∃ p rest, s = p ++ (name ++ [32, 61, 32]) ++ rest ∧ AllIn .space p := by
-  unfold Re.matchGroups fieldStrRe at h
+  unfold Re.matchGroups fieldRe at h
   rw [exec_cat, exec_star] at h
   obtain ⟨p, r1, hs, hp, h⟩ := starExec_inv _ _ _ _ _ h
   rw [exec_cat] at h
@@ -40,10 +40,10 @@ theorem blank_prefix_unique (p p' : Str) (a a' : Nat) (t t' : Str)
 theorem field_disjoint (a a' : Nat) (n n' : Str) (s : Str) (c c' : Caps)
     (ha : CSet.space.test a = false) (ha' : CSet.space.test a' = false)
     (hn : ∀ x ∈ a :: n, x ≠ 32) (hn' : ∀ x ∈ a' :: n', x ≠ 32)
-    (h : (fieldStrRe (a :: n)).matchGroups s = some c) (h' : (fieldStrRe (a' :: n')).matchGroups s = some c') :
+    (vs vs' : CSet) (h : (fieldRe vs (a :: n)).matchGroups s = some c) (h' : (fieldRe vs' (a' :: n')).matchGroups s = some c') :
     a :: n = a' :: n' := by
-  obtain ⟨p, r, hs, hp⟩ := field_prefix _ _ _ h
-  obtain ⟨p', r', hs', hp'⟩ := field_prefix _ _ _ h'
+  obtain ⟨p, r, hs, hp⟩ := field_prefix _ _ _ _ h
+  obtain ⟨p', r', hs', hp'⟩ := field_prefix _ _ _ _ h'
   have e : p ++ a :: (n ++ [32, 61, 32] ++ r) = p' ++ a' :: (n' ++ [32, 61, 32] ++ r') := by
     have := hs.symm.trans hs'
     simpa [List.append_assoc] using this
